@@ -107,6 +107,7 @@ fn scenarios(thorough: bool) -> Vec<Sc> {
         child: false,
         pg_event: pg,
         busy_sup: false,
+        sup_drains: false,
     };
     let kinds: &[Kind] = &[Kind::Send, Kind::Local];
     for &kind in kinds {
